@@ -244,6 +244,10 @@ func ruleRunTable(c *Ctx, prop string) {
 			nodes: []rtNode{{"T2", []string{"x", "w"}, []string{"y"}}}, supplied: map[string][]int64{"x": {3}}},
 		{name: "initializer that is also a graph input, overridden by the caller", inputs: []string{"x", "w"}, outputs: []string{"y"}, inits: []string{"w"},
 			nodes: []rtNode{{"T2", []string{"x", "w"}, []string{"y"}}}, supplied: map[string][]int64{"x": {3}, "w": {3}}},
+		{name: "a declared output with an empty name that no node produces", inputs: []string{"x"}, outputs: []string{"y", ""},
+			nodes: []rtNode{{"T1", []string{"x"}, []string{"y"}}}, supplied: map[string][]int64{"x": {3}}},
+		{name: "an omitted node output (empty name) that the graph declares as an output", inputs: []string{"x"}, outputs: []string{"p", ""},
+			nodes: []rtNode{{"TM", []string{"x"}, []string{"p", ""}}}, supplied: map[string][]int64{"x": {3}}},
 		{name: "skipped optional input (empty name)", inputs: []string{"x"}, outputs: []string{"y"}, inits: []string{"w"},
 			nodes: []rtNode{{"T1", []string{"x", "", "w"}, []string{"y"}}}, supplied: map[string][]int64{"x": {3}}},
 		{name: "two outputs with arbitrary names, fan-out", inputs: []string{"x"}, outputs: []string{"y", "q"},
